@@ -202,3 +202,15 @@ Theorem C10_source_flatten_len : forall C N,
   geval (env1 "slice.len" C) N slice_from_chunks_len = C * N /\
   geval (env1 "slice.len" C) N slice_from_chunks_mut_len = C * N.
 Proof. exact tie_slice_from_chunks. Qed.
+
+(* from_chunks / from_chunks_mut / into_chunks / into_chunks_mut as they stand in src/lib.rs now
+   (coq/gen/GenSigs.v): one transmute of the slice reference each *)
+From GA Require Import SigTie.
+From GAGen Require Import GenSigs.
+Local Open Scope string_scope.
+Theorem C10_source_chunk_casts :
+  transmute_of "GenericArray::from_chunks" = Some ("transmute", "chunks") /\
+  transmute_of "GenericArray::from_chunks_mut" = Some ("transmute", "chunks") /\
+  transmute_of "GenericArray::into_chunks" = Some ("transmute", "chunks") /\
+  transmute_of "GenericArray::into_chunks_mut" = Some ("transmute", "chunks").
+Proof. repeat split. Qed.
